@@ -75,12 +75,13 @@ func (s *Set) Add(a rune) {
 
 // AddRange adds to a set.
 func (s *Set) AddRange(begin, end rune) {
+	// intervals that merely touch [begin, end] are merged too, so that equal sets have equal lists
 	beginNode := &s.Head
-	for beginNode.Forward != nil && begin > beginNode.Forward.End {
+	for beginNode.Forward != nil && begin-1 > beginNode.Forward.End {
 		beginNode = beginNode.Forward
 	}
 	endNode := &s.Tail
-	for endNode.Backward != nil && end < endNode.Backward.Begin {
+	for endNode.Backward != nil && end < endNode.Backward.Begin-1 {
 		endNode = endNode.Backward
 	}
 	if beginNode.Forward == nil && endNode.Backward == nil {
